@@ -33,6 +33,10 @@ interface Shelf
 	fn put(slot: int32, item: Item)
 	fn take(slot: int32) -> Item
 	fn make(weight: int32) -> Item
+	fn all() -> Vec<Item>
+	fn putAll(items: Vec<Item>)
+	sig placed(item: Item)
+	sig stock(items: Vec<Item>)
 end
 `
 
@@ -41,6 +45,7 @@ const c05ObjScenario = `package objs
 import (
 	"fmt"
 	"testing"
+	"time"
 
 	"github.com/lugu/qiloop/bus"
 	"github.com/lugu/qiloop/bus/net"
@@ -61,18 +66,42 @@ type shelfImpl struct {
 	session bus.Session
 	service bus.Service
 	slots   map[int32]ItemProxy
+	helper  ShelfSignalHelper
 }
 
 func (c *shelfImpl) Activate(activation bus.Activation, helper ShelfSignalHelper) error {
 	c.session = activation.Session
 	c.service = activation.Service
 	c.slots = map[int32]ItemProxy{}
+	c.helper = helper
 	return nil
 }
 func (c *shelfImpl) OnTerminate() {}
 func (c *shelfImpl) Put(slot int32, item ItemProxy) error {
 	c.slots[slot] = item
+	if slot >= 100 {
+		// the object travels in a signal, alone and in a list
+		if err := c.helper.SignalPlaced(item); err != nil {
+			return err
+		}
+		return c.helper.SignalStock([]ItemProxy{item, item})
+	}
 	return nil
+}
+func (c *shelfImpl) PutAll(items []ItemProxy) error {
+	for i, it := range items {
+		c.slots[int32(100+i)] = it
+	}
+	return nil
+}
+func (c *shelfImpl) All() ([]ItemProxy, error) {
+	var l []ItemProxy
+	for s := int32(100); s < 110; s++ {
+		if it, ok := c.slots[s]; ok {
+			l = append(l, it)
+		}
+	}
+	return l, nil
 }
 func (c *shelfImpl) Take(slot int32) (ItemProxy, error) {
 	it, ok := c.slots[slot]
@@ -147,6 +176,47 @@ func TestObjects(t *testing.T) {
 	for _, i := range []int{2, 0, 3, 1, 0} {
 		check(t, shelf, int32(10+i), mine[i], int32(40+i))
 	}
+	// objects carried by a signal, alone and in a list: what arrives is the object that was sent
+	cancelPlaced, placed, err := shelf.SubscribePlaced()
+	if err != nil {
+		t.Fatalf("subscribe to a signal that carries an object: %v", err)
+	}
+	defer cancelPlaced()
+	cancelStock, stock, err := shelf.SubscribeStock()
+	if err != nil {
+		t.Fatalf("subscribe to a signal that carries a list of objects: %v", err)
+	}
+	defer cancelStock()
+	for i := int32(0); i < 2; i++ {
+		it, err := shelf.Make(200 + i)
+		if err != nil {
+			t.Fatal(err)
+		}
+		if err := shelf.Put(100+i, it); err != nil {
+			t.Fatalf("put with signals: %v", err)
+		}
+		select {
+		case got := <-placed:
+			if w, err := got.Weight(); err != nil || w != 200+i {
+				t.Fatalf("object carried by a signal: weight %d, %v", w, err)
+			}
+		case <-time.After(3 * time.Second):
+			t.Fatalf("signal that carries an object: nothing received")
+		}
+		select {
+		case got := <-stock:
+			if len(got) != 2 {
+				t.Fatalf("signal that carries a list of objects: %d objects", len(got))
+			}
+			for _, g := range got {
+				if w, err := g.Weight(); err != nil || w != 200+i {
+					t.Fatalf("object carried in a list by a signal: weight %d, %v", w, err)
+				}
+			}
+		case <-time.After(3 * time.Second):
+			t.Fatalf("signal that carries a list of objects: nothing received")
+		}
+	}
 	// what was put first is still there
 	for i := int32(0); i < 4; i++ {
 		back, err := shelf.Take(10 + i)
@@ -155,6 +225,50 @@ func TestObjects(t *testing.T) {
 		}
 		if w, err := back.Weight(); err != nil || w != 40+i {
 			t.Fatalf("slot %d: weight %d, %v", 10+i, w, err)
+		}
+	}
+}
+`
+
+const c05ObjScenario2 = `
+// lists of objects as an argument and as a result of a method
+func TestObjectLists(t *testing.T) {
+	listener, err := net.Listen(util.NewUnixAddr())
+	if err != nil {
+		t.Fatal(err)
+	}
+	srv, err := bus.StandAloneServer(listener, bus.Yes{}, bus.PrivateNamespace())
+	if err != nil {
+		t.Fatal(err)
+	}
+	defer srv.Terminate()
+	if _, err = srv.NewService("Shelf", ShelfObject(&shelfImpl{})); err != nil {
+		t.Fatal(err)
+	}
+	session := srv.Session()
+	defer session.Terminate()
+	shelf, err := Shelf(session)
+	if err != nil {
+		t.Fatal(err)
+	}
+	var items []ItemProxy
+	for i := int32(0); i < 2; i++ {
+		it, err := shelf.Make(200 + i)
+		if err != nil {
+			t.Fatal(err)
+		}
+		items = append(items, it)
+	}
+	if err := shelf.PutAll(items); err != nil {
+		t.Fatalf("a list of objects as an argument: %v", err)
+	}
+	all, err := shelf.All()
+	if err != nil || len(all) != 2 {
+		t.Fatalf("a list of objects as a result: %d objects, %v", len(all), err)
+	}
+	for i, g := range all {
+		if w, err := g.Weight(); err != nil || w != int32(200+i) {
+			t.Fatalf("object returned in a list: weight %d, %v", w, err)
 		}
 	}
 }
@@ -189,11 +303,15 @@ func execGenObjects(a []string) string {
 		os.WriteFile(filepath.Join(dir, "go.sum"), sum, 0o644)
 	}
 	os.WriteFile(filepath.Join(dir, "objs", "gen.go"), gen.Bytes(), 0o644)
-	os.WriteFile(filepath.Join(dir, "objs", "scenario_test.go"), []byte(c05ObjScenario), 0o644)
+	os.WriteFile(filepath.Join(dir, "objs", "scenario_test.go"), []byte(c05ObjScenario+c05ObjScenario2), 0o644)
+	test := "TestObjects$"
+	if len(a) > 0 && a[0] == "2" {
+		test = "TestObjectLists$"
+	}
 	goenv := append(os.Environ(), "GOFLAGS=-mod=mod", "GOPROXY=off", "GOSUMDB=off", "GOTOOLCHAIN=local", "CGO_ENABLED=0")
 	var out []byte
 	for attempt := 0; attempt < 2; attempt++ {
-		c := exec.Command("go", "test", "-vet=off", "-count=1", "-timeout", "60s", "./objs")
+		c := exec.Command("go", "test", "-vet=off", "-count=1", "-timeout", "60s", "-run", test, "./objs")
 		c.Dir = dir
 		c.Env = goenv
 		done := make(chan error, 1)
@@ -232,4 +350,14 @@ func execGenObjects(a []string) string {
 	return "fail:" + firstLine(string(out))
 }
 
-func init() { executors["gen.objects"] = execGenObjects }
+// gen.objectsx 2: the scenario of a listed finding: both sides answer known-weakness; whether it still fails is
+// reported by the runner
+var c05LastObjX string
+
+func init() {
+	executors["gen.objects"] = execGenObjects
+	executors["gen.objectsx"] = func(a []string) string {
+		c05LastObjX = execGenObjects(a)
+		return "known-weakness"
+	}
+}
